@@ -26,6 +26,11 @@ def impl(py):
     a, b = of_us(py["dom"][0]), of_us(py["dom"][1])
     s = TimeScale()
     s.domain([a, b])
+    # another scale object is configured and used in between: scale objects share nothing
+    import datetime as _dt
+    _o = TimeScale().domain([_dt.datetime(2001, 2, 3, 4, 5), _dt.datetime(2031, 7, 9)]).range([7, 1234])
+    _o.ticks(7)
+    _o.nice()
     out = {}
     # the method tickMethod picks for the ORIGINAL domain (public method of TimeScale)
     meth = None
